@@ -397,11 +397,16 @@ Proof. vm_compute. repeat split. Qed.
    this changes nothing ([res] never holds a live cookie there); the theorem is about EVERY state. *)
 Definition live (r : result) : bool := match find_paged (ctrls r) with Some (_ :: _) => true | _ => false end.
 Definition finish56 (s : stream) : stream * result * option nat :=
-  let '(s', r, sc) := finish s in (s', if live r then cancelled else r, sc).
+  let '(s', r, sc) := finish s in (s', if live r then cancelled else mkRes (rc r) (others (ctrls r)), sc).   (* F56b: ... and the control of the last page goes *)
+Lemma no_paged_in_others cs : existsb is_paged (others cs) = false.
+Proof. unfold others. induction cs as [|c l IH]; [reflexivity|]. cbn [filter]. destruct (is_paged c) eqn:E; cbn [negb]; [exact IH|]. cbn [existsb]. now rewrite E, IH. Qed.
+Theorem c16_finish_no_paging_control s : existsb is_paged (ctrls (snd (fst (finish56 s)))) = false.
+Proof. unfold finish56. destruct (finish s) as [[s' r] sc]. cbn [fst snd]. destruct (live r); [reflexivity|]. cbn [ctrls]. apply no_paged_in_others. Qed.
 Theorem c10_finish_never_a_page_result s : cookie_of (snd (fst (finish56 s))) = [].
 Proof.
-  unfold finish56. destruct (finish s) as [[s' r] sc]. cbn [fst snd]. unfold live, cookie_of.
-  destruct (find_paged (ctrls r)) as [[|c0 ck]|] eqn:E; [now rewrite E|reflexivity|now rewrite E].
+  pose proof (c16_finish_no_paging_control s) as H. unfold cookie_of, find_paged.
+  destruct (find is_paged (ctrls (snd (fst (finish56 s))))) as [c|] eqn:E; [|reflexivity].
+  apply find_some in E as [Hin Hp]. exfalso. assert (existsb is_paged (ctrls (snd (fst (finish56 s)))) = true) by (apply existsb_exists; eauto). congruence.
 Qed.
 Lemma c10_refuted_F56 : let s := mkS SError None (Some (mkRes 0 [CPaged 0 [x01]])) 7 [] 2 [] [] in
   snd (fst (finish s)) = mkRes 0 [CPaged 0 [x01]] /\ snd (fst (finish56 s)) = cancelled.
